@@ -127,7 +127,11 @@ def rule_commands_on_clone(chk, rid):
     ok = ("from_dict(self.as_dict())" in txt or "deepcopy(self.metadata)" in txt) and "copy_state_data(self.data)" in txt
     chk.ob(rid, f"{STATE}.State.clone", ok, "clone = deep-copied metadata + copy_state_data(self.data)", cl, m, key="clone-shape")
     ad = repo.func(STATE, "State.as_dict")
-    ok = all(isinstance(r.value, ast.Call) and call_tail(r.value) == "deepcopy" and U(r.value.args[0]) == "self.metadata" for r in returns_of(ad)) and bool(returns_of(ad))
+    adcfg = CFG(ad)
+    def _rv(r):
+        from ..lib import resolve_local
+        return resolve_local(adcfg, r.value, adcfg.node_of(r)) if isinstance(r.value, ast.Name) else r.value
+    ok = all(isinstance(_rv(r), ast.Call) and call_tail(_rv(r)) == "deepcopy" and U(_rv(r).args[0]) == "self.metadata" for r in returns_of(ad)) and bool(returns_of(ad))
     chk.ob(rid, f"{STATE}.State.as_dict", ok, "as_dict returns deepcopy(self.metadata)", ad, m, key="as_dict-deep")
     fd = repo.func(STATE, "State.from_dict")
     ws = [n for n in body_walk(fd) if isinstance(n, ast.Assign) and any(U(t) == "self.metadata" for t in n.targets)]
